@@ -157,7 +157,11 @@ def run(ctx):
     f = fns["fsg_search_pnode_exit"]
     pn = f.params[1][0]
     exits = f.calls("fsg_history_entry_add")
-    ctx.check(o4, len(exits) == 2, key(f, "two-adds"), f.where(f.root), "expected the filler/single-phone and the multi-phone exit (found %d)" % len(exits))
+    # exactly one entry per exit, whichever way the context is chosen: every path through the function
+    # passes an add, and none passes two
+    once = bool(exits) and not f.cfg.path_exists((f.cfg.entry, 0), "exit", is_barrier=lambda e: e in exits, start_after=False) \
+        and not any(f.cfg.path_exists(paths.pos_of(f, c), lambda e: e in exits) for c in exits)
+    ctx.check(o4, once, key(f, "two-adds"), f.where(f.root), "a word exit does not add exactly one history entry on every path (%d call sites)" % len(exits))
     for n_, c in enumerate(exits):
         a = [f.canon(x) for x in f.args(c)]
         want = ["fsgs->history", "%s->next.fsglink" % pn, "fsgs->frame", "%s->hmm.out_score" % pn, "%s->hmm.out_history" % pn, "%s->ci_ext" % pn]
